@@ -38,14 +38,14 @@ type gEvent struct {
 }
 
 type dag struct {
-	parts  []*participant
-	idx    map[string]int // pubkey string -> creator number
-	n0     int
-	events []*gEvent // creation order (topological)
-	byHex  map[string]*gEvent
-	txSeq  int
-	txBody map[int][]byte
-	oldRoundEvents, lateWitnesses int // events / witnesses created into a round the reference node had already processed
+	parts                                      []*participant
+	idx                                        map[string]int // pubkey string -> creator number
+	n0                                         int
+	events                                     []*gEvent // creation order (topological)
+	byHex                                      map[string]*gEvent
+	txSeq                                      int
+	txBody                                     map[int][]byte
+	oldRoundEvents, lateWitnesses              int // events / witnesses created into a round the reference node had already processed
 	outOfOrderSteps, witnessIntoWaitingDecided int
 	guidedLateWitnesses                        int
 }
@@ -650,6 +650,7 @@ func generate(rng *rand.Rand, o genOpts, c *Case, ref *hnode) *dag {
 		}
 	}
 	joinIssued := map[int]bool{}
+	lastJoinStep := -1
 	leaveIssued := false
 	burstLeft, burstWho := 0, 0
 	// naps and catch-up (o.late): a creator sleeps for a while; when it wakes up it learns the
@@ -739,6 +740,14 @@ func generate(rng *rand.Rand, o genOpts, c *Case, ref *hnode) *dag {
 		_, known := ref.store.RepertoireByPubKey()[d.parts[a].hex]
 		if !known && rng.Intn(30) != 0 {
 			continue
+		}
+		if known && a >= o.n0 {
+			// an honest joiner does not babble before its accepted round (core.addSelfEvent:
+			// "Too early to insert self-event"): its first event appears once the round from which it is
+			// a validator has been reached
+			if fr, ok := ref.store.FirstRound(d.parts[a].peer.ID()); ok && ref.store.LastRound() < fr {
+				continue
+			}
 		}
 		if count >= silentFrom && silent[a] {
 			continue
@@ -883,7 +892,9 @@ func generate(rng *rand.Rand, o genOpts, c *Case, ref *hnode) *dag {
 		itxDesc := []string{}
 		if known && a < o.n0 {
 			for j := o.n0; j < n; j++ {
-				if !joinIssued[j] && rng.Intn(o.steps/(3*(o.extra+1))+1) == 0 {
+				closeToLast := lastJoinStep >= 0 && count-lastJoinStep < 40 && rng.Intn(6) == 0 // two changes inside one activation window
+				if !joinIssued[j] && (closeToLast || rng.Intn(o.steps/(3*(o.extra+1))+1) == 0) {
+					lastJoinStep = count
 					itx := hg.NewInternalTransactionJoin(*d.parts[j].peer)
 					itx.Sign(d.parts[j].key)
 					itxs = append(itxs, itx)
